@@ -50,6 +50,21 @@ void add(std::vector<Item>& items, const char* expect, const char* out, const st
     it.bounds.W = 1;
     items.push_back(it);
 }
+thread_local int tl_counter = 7;
+std::vector<int>& tl_vec()
+{
+    static thread_local std::vector<int> v;  // arena memory owned by a thread_local object
+    return v;
+}
+struct TlProbe {
+    Shared* s = nullptr;
+    ~TlProbe() { if (s) s->x.fetch_add(1); }
+};
+TlProbe& tl_probe()
+{
+    static thread_local TlProbe p;
+    return p;
+}
 constexpr auto RLX = std::memory_order_relaxed;
 constexpr auto ACQ = std::memory_order_acquire;
 constexpr auto REL = std::memory_order_release;
@@ -151,6 +166,17 @@ void make_items(const Options&, std::vector<Item>& items)
     add(items, "none", "1", "free after a reader finished, with release/acquire hand-over: no race",
         [](Shared* s) { int* p = new int(3); s->z.store((long)(intptr_t)p, REL); while (!s->y.load(ACQ)) std::this_thread::yield(); delete p; },
         [](Shared* s) { long v; while (!(v = s->z.load(ACQ))) std::this_thread::yield(); s->r1 = *(int*)(intptr_t)v; s->y.store(1, REL); }, nullptr, 2, 0);
+    // ---- thread_local is per modelled thread, fresh in every execution, destroyed at thread exit
+    add(items, "none", "1", "thread_local: each thread has its own copy, initialised from the image in every execution",
+        [](Shared* s) { MC_CHECK(tl_counter == 7, "tls-init", "thread_local not fresh"); tl_counter += 1; point(); tl_counter += 1; s->r1 = tl_counter; },
+        [](Shared* s) { MC_CHECK(tl_counter == 7, "tls-init", "thread_local not fresh"); tl_counter += 10; point(); tl_counter += 10; s->r2 = tl_counter; },
+        [](Shared* s) { MC_CHECK(s->r1 == 9 && s->r2 == 27, "tls-shared", "thread_local shared between threads"); });
+    add(items, "none", "1", "thread_local object with constructor/destructor: built per thread on first use, destroyed at thread exit",
+        [](Shared* s) { tl_vec().push_back(1); point(); tl_vec().push_back(2); s->r1 = (int)tl_vec().size(); },
+        [](Shared* s) { tl_vec().push_back(1); point(); s->r2 = (int)tl_vec().size(); },
+        [](Shared* s) { MC_CHECK(s->r1 == 2 && s->r2 == 1, "tls-obj", "thread_local vector shared or stale");
+                        MC_CHECK(s->x.load() == 2, "tls-dtor", "thread_local destructors did not run at thread exit"); },
+        3, 1, [](Shared* s) { tl_probe().s = s; }, [](Shared* s) { tl_probe().s = s; });
     add(items, "crash", "*", "null dereference is reported with its schedule",
         [](Shared* s) { int* volatile p = nullptr; s->r1 = *p; }, [](Shared*) {});
 }
